@@ -255,7 +255,13 @@ TSearchEnd ==
                  "C04.incumbent_update_rule")
         \cup Chk(Det => Ev.fnewobs, "C04.compares_observation")
         \cup Chk((Det /\ s.noise = "det") => Ev.incyR = s.minY, "C04.incumbent_is_min")
-        \cup Chk(Ev.incuid \in Uids, "C19.hist_x_evaluated"))
+        \cup Chk(Ev.incuid \in Uids, "C19.hist_x_evaluated")
+        \* beyond the listed properties: search scale factor dynamics
+        \cup Chk(Ev.sf2 # 9999 /\ Ev.sf2b # 9999 /\
+                 Ev.sf2 = NextSearchFactor(Ev.sf2b,
+                            IF succ THEN "success" ELSE IF moved THEN "incremental" ELSE "failure",
+                            s.sc + 1, s.ntry),
+                 "EXT.search_factor_rule"))
 
 (* ---- search/poll alternation is applied when the poll begins, or at the *)
 (* loop end when no poll was run                                           *)
@@ -326,6 +332,8 @@ TPollEnd ==
         \cup Chk(s.budgetApplies => Ev.fc <= Max2(s.budgetEff, s.fcInit), "C03.budget_respected")
         \cup Chk(Ev.iter = s.iter, "C03.controller_follows_spec")
         \cup Chk(Ev.paired, "MACH.poll_pairing")
+        \cup Chk(Ev.ongp, "C13.success_judged_on_gp_estimate")
+        \cup Chk(Ev.ovf = NextOverflows(Ev.ovfb, Ev.good, kb, c.kcap), "EXT.mesh_overflow_count")
         \cup Chk(Det => (Ev.incuid = expInc.uid /\ Ev.incyR = expInc.yR),
                  "C04.incumbent_update_rule")
         \cup Chk((Det /\ s.noise = "det") => Ev.incyR = s.minY, "C04.incumbent_is_min")
@@ -405,7 +413,16 @@ TLoopEnd ==
         \cup Chk(s.histNow = RecordsHistory(s.polled, Ev.finished), "C19.hist_recorded_iff")
         \cup Chk(np1 <= NonProgressBound(s.ntry), "C03.non_progress_bounded")
         \cup Chk((Det /\ s.noise = "det") => Ev.incyR = s.minY, "C04.incumbent_is_min")
-        \cup Chk(Det => Ev.uequbest, "C19.incumbent_tuple_consistent"))
+        \cup Chk(Det => Ev.uequbest, "C19.incumbent_tuple_consistent")
+        \* the incumbent's observed value was observed AT the incumbent (every mode;
+        \* under specified noise merged values lie within the range observed there)
+        \cup Chk(LET at == {s.calls[i].yR : i \in {j \in DOMAIN s.calls : s.calls[j].uid = Ev.incuid}}
+                 IN IF at = {} THEN FALSE
+                    ELSE IF s.uhl = 2
+                         THEN (CHOOSE m \in at : \A y \in at : m <= y) <= Ev.incyR
+                              /\ Ev.incyR <= (CHOOSE m \in at : \A y \in at : m >= y)
+                         ELSE Ev.incyR \in at,
+                 "C19.incumbent_tuple_consistent"))
 
 TNonProgress ==
   /\ IsEv("NonProgress")
@@ -497,6 +514,9 @@ TResult ==
         \cup Chk(Ev.iterations <= s.cfg.maxiter - 1 \/ s.cfg.maxiter < 1, "C03.iter_bounded")
         \cup Chk(s.cfg.pow2 => (Ev.kmesh = s.k /\ Ev.kfinal = s.k), "C19.result_fields_agree")
         \cup Chk(Ev.x0ok /\ Ev.seedok /\ Ev.ptypeok, "C19.result_fields_agree")
+        \cup Chk(Ev.ttype = (IF s.uhl = 0 THEN "deterministic"
+                              ELSE IF s.uhl = 2 THEN "stochastic (specified noise)" ELSE "stochastic"),
+                 "C19.result_fields_agree")
         \cup Chk(Ev.keysok /\ Ev.attrok, "C19.result_keys")
         \cup Chk(\E i \in DOMAIN s.hist : s.hist[i].pid = Ev.pid, "C19.result_x_in_history")
         \cup Chk(~noisy => (lasth.pid = Ev.pid /\ lasth.yR = Ev.fvalR),
